@@ -17,6 +17,15 @@
 //	            block that survives the wire and is accepted by a fresh replica;
 //	            the same end to end for every attribute shape at its fee
 //	            boundary (exact, one unit less, attribute fee unpaid)
+//
+// Extensions (files ext_*_test.go, run_stale_test.go, run_count_test.go):
+// more chain states (policy set twice, contracts deployed/destroyed, Notary
+// deposit, notary role moved, short traceability window, committee change in a
+// multi-validator family), contract-based witnesses, Notary as the sender, a
+// witness at the gas limit, limits of signer/attribute counts, exact solvency
+// with pooled transactions, every valid case end to end through a proposed
+// block, PoolTxWithData as a fourth entry, histories "pooled, then a block
+// arrives, then propose", packing across the 252/253 transaction count.
 package c07
 
 import (
@@ -146,7 +155,7 @@ type env struct {
 	thor    bool
 	count   struct {
 		sound, soundRej, fee, enc, encVerdict, block, scripts vk.Counter
-		e2e, stale, countFam                                  vk.Counter
+		e2e, stale, countFam, partial                         vk.Counter
 		states                                                *vk.Set
 	}
 	// extensions
@@ -486,7 +495,17 @@ func TestCheck(t *testing.T) {
 	fmt.Printf("C07 phases: sound+enc %.1fs, proposable %.1fs, fee+enc %.1fs\n", t1.Sub(t0).Seconds(), t2.Sub(t1).Seconds(), t3.Sub(t2).Seconds())
 	e.f.flush(r)
 	pprof.StopCPUProfile()
+	distinct := func(sub string) int { return len(e.outs[sub]) }
+	ext := map[string]any{
+		"after-block-histories":        map[string]any{"cases": int(e.count.stale.Get()), "distinct_outcomes": distinct("stale")},
+		"count-varint-packing":         map[string]any{"cases": int(e.count.countFam.Get()), "distinct_outcomes": distinct("count")},
+		"sound-end-to-end":             map[string]any{"cases": int(e.count.e2e.Get()), "distinct_outcomes": distinct("e2e")},
+		"sound-via-PoolTxWithData":     map[string]any{"cases": int(e.count.partial.Get()), "distinct_outcomes": distinct("pooltxwithdata")},
+		"sound-new-states":             map[string]any{"states": len(extStates()) + len(e.mtbNames) + len(e.comNames), "distinct_outcomes_of_the_valid_variant": distinct("sound-new-states")},
+		"max-verification-gas-witness": e.outs["maxgas-witness"],
+	}
 	cov := map[string]any{
+		"extension_families":                     ext,
 		"states":                                 e.count.states.Len(),
 		"transitions":                            int(e.count.sound.Get() + e.count.fee.Get() + e.count.encVerdict.Get() + e.count.block.Get() + e.count.e2e.Get() + e.count.stale.Get() + e.count.countFam.Get()),
 		"traces_validated_against_impl":          int(e.count.sound.Get() + e.count.fee.Get() + e.count.encVerdict.Get() + e.count.block.Get() + e.count.e2e.Get() + e.count.stale.Get() + e.count.countFam.Get()),
@@ -507,6 +526,7 @@ func TestCheck(t *testing.T) {
 		"proposable_count_varint":                countCov,
 		"proposable_count_varint_cases":          int(e.count.countFam.Get()),
 		"sound_end_to_end_blocks":                int(e.count.e2e.Get()),
+		"sound_submissions_via_PoolTxWithData":   int(e.count.partial.Get()),
 		"outcomes_by_subcheck":                   e.outs,
 		"findings_not_listed":                    e.f.dropped,
 		"rule":                                   "state = (sub-check, chain state or family, transaction content / pool content); every element of the stated finite sets is executed on a real replica",
@@ -519,5 +539,12 @@ func TestCheck(t *testing.T) {
 		"single-validator family (committee = validator), P2PSigExtensions on, all hardforks active; account 4 is the only notary node; oracle node (account 3) and a pending request exist in the state named oracle only",
 		"NotaryAssisted: only the ledger rules (Notary signer present, attribute fee by NKeys) are in the oracle; NKeys consistency with the witnesses is the notary service's rule, not the ledger's",
 		"proposable blocks: limits are checked on the serialised block (size), the selected set (count, system fee) and by the backup-side procedure of consensus.verifyBlock re-done on the fresh replica",
+		"policy values of the state policy-twice, Notary deposits, deployed/destroyed contracts and the behaviour of the hand-assembled contracts' verify methods are known from the construction of the histories, not read back from the node; getters that disagree with the history are reported",
+		"Conflicts records: inside the ledger's traceability window (index + MaxTraceableBlocks > height) the statement is demanded as written; for older records dao.HasTransaction documents that they are ignored, which the statement does not mention: such cases are counted, not judged (no-demand)",
+		"PoolTxWithData (entry of the notary request pool) is judged by the same predicate with the relaxations its code documents for partially filled transactions: no upper bound on ValidUntilBlock, NotValidBefore within MaxNotValidBeforeDelta of the height and of ValidUntilBlock, failures of the FIRST witness are not judged",
+		"a witness costing exactly MaxVerificationGAS: its cost comes from a linear model fitted on small instances of the same script (confirmed on a further instance), never from a run at the limit; it exists only at fee factors where the limit is reachable exactly (the default one)",
+		"after-block histories: the oracle is the proposal (what the pool offers after the block must form an accepted block); whether a transaction that is still valid stays pooled is recorded, not demanded",
+		"the multi-validator committee is taken from the member list (GetCommittee) and its majority account computed by the harness; HighPriority is demanded to follow it on both sides of the change",
+		"not demanded (no rule in this code base, statement silent): push-only invocation scripts; well-formedness beyond what the VM loader checks for witness scripts is taken from the node's own error class only in the variants custom-*-malformed",
 	})
 }
